@@ -8,6 +8,7 @@ from hypothesis import strategies as st
 from scipy.interpolate import CloughTocher2DInterpolator, LinearNDInterpolator
 
 from vlib import blocks, gen, kernels
+from vlib import build as vbuild
 from vlib.oracles import EPS
 from vlib.runner import Sub, Violation
 
@@ -93,6 +94,7 @@ def spline_cases(draw):
     case = draw(pair_sets())
     nf = len(case["forces"])
     case["force_values"] = draw(st.lists(st.one_of(gen.finite(-1e3, 1e3), st.integers(-5, 5).map(float)), min_size=nf, max_size=nf))
+    case["force_container"] = draw(st.sampled_from(vbuild.CONTAINERS))
     return case
 
 
@@ -121,7 +123,7 @@ def check_spline(case, ctx):
     # predict with externally set parameters = sum_j f_j g_ij = jacobian @ forces
     fv = np.array(case["force_values"], dtype="float64")
     sp.force_ = fv
-    sp.force_coords_ = (fe, fn)
+    sp.force_coords_ = (vbuild.present(fe, case.get("force_container")), vbuild.present(fn, case.get("force_container")))
     pred = np.asarray(sp.predict((oe, on)))
     ctx.check(pred.shape == tuple(case["oshape"]), "prediction shape %s for query shape %s", pred.shape, tuple(case["oshape"]))
     flat = pred.ravel(order="C")
@@ -145,6 +147,7 @@ def vector_cases(draw):
     nf = len(case["forces"])
     case["poisson"] = draw(st.one_of(st.sampled_from([-1.0, 0.0, 0.5, 1.0, 0.25]), gen.finite(-1, 1)))
     case["force_values"] = draw(st.lists(st.one_of(gen.finite(-1e3, 1e3), st.integers(-5, 5).map(float)), min_size=2 * nf, max_size=2 * nf))
+    case["force_container"] = draw(st.sampled_from(vbuild.CONTAINERS))
     return case
 
 
@@ -153,7 +156,7 @@ def check_vector(case, ctx):
     nobs, nf = len(obs), len(forces)
     oe, on = arr(obs, 0, case["oshape"], case["order"]), arr(obs, 1, case["oshape"], case["order"])
     fe, fn = arr(forces, 0), arr(forces, 1)
-    vs = vd.VectorSpline2D(poisson=nu, mindist=mindist, force_coords=(fe, fn))
+    vs = vd.VectorSpline2D(poisson=nu, mindist=mindist, force_coords=(vbuild.present(fe, case.get("force_container")), vbuild.present(fn, case.get("force_container"))))
     jac = np.asarray(vs.jacobian((oe, on), (fe, fn)))
     ctx.check(jac.shape == (2 * nobs, 2 * nf), "jacobian shape %s, expected (%d, %d)", jac.shape, 2 * nobs, 2 * nf)
     ctx.check(np.all(np.isfinite(jac)), "jacobian is not finite (mindist=%r): %r", mindist, jac.tolist())
